@@ -112,7 +112,7 @@ def check(ctx):
                 ctx.ob("R19.2", f"{k}|result-matched", False, body.loc(cb), "the CAS result is not matched on Ok/Err")
             else:
                 b, (loc, arms, other) = sw
-                ok_t, err_t = arms.get(0), arms.get(1)
+                ok_t, err_t = arms.get(0, other), arms.get(1, other)
                 hdr = [h for h, blocks in body.loops.items() if cb in blocks]
                 exits_ok = True
                 for h in hdr:
